@@ -49,17 +49,23 @@ class Keychain(object):
         self._init_table_p2s()
         self.commit()
 
-    def add_keys_path(self, keys: Iterable[Any], path: str) -> int:
-        total = 0
-        for key in keys:
-            fingerprint = key.fingerprint()
-            h160 = key.subkey_for_path(path).hash160()
+    def _add_path(self, subkey: Any, path: str, fingerprint: bytes) -> None:
+        # a script can name the key by either SEC encoding: register the hash160 of both,
+        # as build_hash160_lookup and the secret exponent cache do
+        for is_compressed in (True, False):
+            h160 = subkey.hash160(is_compressed=is_compressed)
             self._exec_sql(
                 "insert or ignore into HASH160 values (?, ?, ?)",
                 h160,
                 path,
                 fingerprint,
             )
+
+    def add_keys_path(self, keys: Iterable[Any], path: str) -> int:
+        total = 0
+        for key in keys:
+            fingerprint = key.fingerprint()
+            self._add_path(key.subkey_for_path(path), path, fingerprint)
             total += 1
         return total
 
@@ -67,13 +73,7 @@ class Keychain(object):
         fingerprint = key.fingerprint()
         total = 0
         for path in path_iterator:
-            h160 = key.subkey_for_path(path).hash160()
-            self._exec_sql(
-                "insert or ignore into HASH160 values (?, ?, ?)",
-                h160,
-                path,
-                fingerprint,
-            )
+            self._add_path(key.subkey_for_path(path), path, fingerprint)
             total += 1
         return total
 
